@@ -1,0 +1,1 @@
+//! Verification facade: `pool` (feature `verif`).
